@@ -87,7 +87,9 @@ mod verif_driver_reduce {
             n += 1;
             let want = if (0..3).contains(&i) { Some(items[i as usize].clone()) } else { None };
             let got = quiet(|| list.index(num(i)));
-            if got != Ok(want.clone()) {
+            if got.is_err() {
+                witness("c14_tir/Expression::index#reachable-panic", "index", format!("List[10,20,30][{i}]"), format!("{got:?}"), "element i, or None when i is out of range - never a panic");
+            } else if got != Ok(want.clone()) {
                 witness("c02_tir/Expression::index#postcondition", "index", format!("List[10,20,30][{i}]"), format!("{got:?}"), "element i, or None when i is out of range");
             }
             let got = quiet(|| st.index(num(i)));
@@ -202,6 +204,32 @@ mod verif_driver_reduce {
 
     fn count(t: &Tx, what: &str) -> usize {
         format!("{t:?}").matches(what).count()
+    }
+
+    // ---- C02 / C15: the value of an input that resolved to several UTxOs is the SUM of their values, class by class
+    #[test]
+    fn into_assets_sums_the_utxos() {
+        use crate::model::assets::{AssetClass, CanonicalAssets};
+        use crate::model::core::{Utxo, UtxoRef};
+        let mut n = 0;
+        let tokc = AssetClass::Defined(vec![7u8; 28], b"T".to_vec());
+        let mk = |k: u8, ada: i128, tok: i128| Utxo { r#ref: UtxoRef { txid: vec![k; 32], index: 0 }, address: vec![0x61; 29], datum: None, script: None,
+            assets: CanonicalAssets::from_naked_amount(ada) + CanonicalAssets::from_class_and_amount(tokc.clone(), tok) };
+        for set in [vec![(5i128, 0i128)], vec![(5, 0), (7, 0)], vec![(5, 2), (7, 3)], vec![(5, 2), (7, 0), (11, 4)], vec![(1, 1), (1, 1)]] {
+            n += 1;
+            let utxos: HashSet<Utxo> = set.iter().enumerate().map(|(i, (a, t))| mk(i as u8 + 1, *a, *t)).collect();
+            let want_ada: i128 = set.iter().map(|x| x.0).sum();
+            let want_tok: i128 = set.iter().map(|x| x.1).sum();
+            match quiet(|| Expression::UtxoSet(utxos.clone()).into_assets()) {
+                Ok(Ok(Expression::Assets(l))) => {
+                    let v = CanonicalAssets::from(l);
+                    let (ga, gt) = (v.naked_amount().unwrap_or(0), v.asset_amount(&tokc).unwrap_or(0));
+                    if (ga, gt) != (want_ada, want_tok) { witness("c02_tir/into_assets#postcondition", "into_assets", format!("utxos {set:?}"), format!("lovelace {ga}, token {gt}"), &format!("lovelace {want_ada}, token {want_tok} (the sum)")); }
+                }
+                other => witness("c02_tir/into_assets#postcondition", "into_assets", format!("utxos {set:?}"), format!("{other:?}").chars().take(120).collect(), "an asset list"),
+            }
+        }
+        println!("VERIF-CASES fn=into_assets n={n}");
     }
 
     // ---- C07 / C06: `reduce` reaches every position (a foldable operation is folded wherever it sits), and a template
